@@ -300,6 +300,9 @@ func c07(env *Env, rep *Report) {
 	}
 	rep.Rule = "two (thorough: also three) tunnels with distinct connection ids, users, token hosts, client addresses and backends on transports {ws+ws, ws+legacy, legacy+legacy}, each doing setup, two tagged data packets, receiving two tagged host chunks, then close or abrupt drop (" + strings.Join(names, ", ") + "); every schedule of all clients, handlers, relay goroutines and backends up to the deviation bound. " +
 		"Oracle (differential non-interference; the scenarios with 17 and 64 simultaneous tunnels run their lockstep schedule only): in every schedule each tunnel's observation (responses, bytes at its client, bytes at its host, dials) equals the observation of that tunnel run alone, and no tagged byte of one tunnel shows up in another. Plus histories of tunnels coming and going one after the other (4 histories x 3 transport mixes) with the registry of live tunnels observed after every step: exactly the live tunnels, each with its own user, target and id. Plus, on the real binary with socket buffer sizes configured: tunnel A relays 12 MiB (the process allocates and collects garbage meanwhile), tunnel B is set up, both hosts talk: A keeps relaying and each side receives only its own bytes. Plus histories across the web side and the tunnel side of one process wired like main.go (one host list for both): every sequence of two (thorough: three) operations of two users from {download, download + tunnel to the own host, download + tunnel asking for the other user's host, refused download}, host selection roundrobin and unsigned with a user placeholder in the list: each operation has the outcome it has in a fresh process. Plus the pairing scenario: a legacy RDG_IN_DATA with another connection id never attaches to an existing RDG_OUT_DATA. distinct_nontrivial = distinct per-schedule observations."
+	if env.thorough() {
+		rep.Rule += " Thorough tier: every scenario is first explored completely with the bound of the quick tier, then again with the full bound for as long as the time budget lasts (caps_hit names what the budget cut)."
+	}
 	rep.Assumptions = append(rep.Assumptions, "2-3 tunnels for the interleaving search; 17 and 64 simultaneous tunnels in one lockstep schedule each", "deviation bounding: every departure from the default schedule costs 1")
 	bound := 2
 	if env.thorough() {
@@ -342,24 +345,36 @@ func c07(env *Env, rep *Report) {
 	if env.Part == "" {
 		c07UserHistories(env, rep)
 	}
-	for _, sc := range scs {
-		if env.Part != "" && !strings.Contains(sc.Name, env.Part) {
-			continue
+	// thorough: every scenario first with the bound of the quick tier (complete within minutes), then again with
+	// the full bound for as long as the time budget lasts: a scenario late in the list is never left unexplored
+	// because an early one used up the budget
+	passes := []int{0}
+	if env.thorough() {
+		passes = []int{-1, 0}
+	}
+	for pi, delta := range passes {
+		for _, sc := range scs {
+			if env.Part != "" && !strings.Contains(sc.Name, env.Part) {
+				continue
+			}
+			alone := prepare(sc)
+			if env.Shard == 0 && pi == 0 {
+				rep.sample(map[string]any{"scenario": sc.Name, "observation_of_each_tunnel_alone": alone})
+			}
+			b := bound + delta
+			if len(sc.Plans) > 2 {
+				b = 2
+			}
+			if strings.HasPrefix(sc.Name, "many-") {
+				b = 0
+			}
+			if strings.Contains(sc.Name, "similar-ids") {
+				b-- // what they look for (two identifiers taken for one) shows without an unusual schedule
+			}
+			if pi == 1 && (len(sc.Plans) > 2 || strings.HasPrefix(sc.Name, "many-")) {
+				continue // same bound as in the first pass
+			}
+			exploreConc(env, rep, sc, b, nil, c07Check(sc, alone))
 		}
-		alone := prepare(sc)
-		if env.Shard == 0 {
-			rep.sample(map[string]any{"scenario": sc.Name, "observation_of_each_tunnel_alone": alone})
-		}
-		b := bound
-		if len(sc.Plans) > 2 {
-			b = 2
-		}
-		if strings.HasPrefix(sc.Name, "many-") {
-			b = 0
-		}
-		if strings.Contains(sc.Name, "similar-ids") {
-			b-- // what they look for (two identifiers taken for one) shows without an unusual schedule
-		}
-		exploreConc(env, rep, sc, b, nil, c07Check(sc, alone))
 	}
 }
